@@ -835,6 +835,10 @@ type deadlineContextWriter struct {
 
 	// quit closed once the connection is closed.
 	quit chan struct{}
+
+	// writeErr is set once a write failed or was cut short. The stream then ends in an
+	// incomplete frame, so nothing more may be written. It is protected by semaphore.
+	writeErr error
 }
 
 // writeContext implements contextWriter.
@@ -854,13 +858,24 @@ func (c *deadlineContextWriter) writeContext(ctx context.Context, p []byte) (int
 		<-c.semaphore
 	}()
 
+	if c.writeErr != nil {
+		return 0, c.writeErr
+	}
+
 	if c.timeout > 0 {
 		err := c.w.SetWriteDeadline(time.Now().Add(c.timeout))
 		if err != nil {
 			return 0, err
 		}
 	}
-	return c.w.Write(p)
+	n, err := c.w.Write(p)
+	if err == nil && n < len(p) {
+		err = io.ErrShortWrite
+	}
+	if err != nil {
+		c.writeErr = err
+	}
+	return n, err
 }
 
 func newWriteCoalescer(conn deadlineWriter, writeTimeout, coalesceDuration time.Duration,
@@ -884,6 +899,10 @@ type writeCoalescer struct {
 	writeCh chan writeRequest
 
 	timeout time.Duration
+
+	// writeErr is set once a flush failed or was cut short. The stream then ends in an
+	// incomplete frame, so nothing more may be written. Only used by the flusher goroutine.
+	writeErr error
 
 	testEnqueuedHook func()
 	testFlushedHook  func()
@@ -980,6 +999,15 @@ func (w *writeCoalescer) writeFlusherImpl(timerC <-chan time.Time, resetTimer fu
 }
 
 func (w *writeCoalescer) flush(resultChans []chan<- writeResult, buffers net.Buffers) {
+	if w.writeErr != nil {
+		for i := range resultChans {
+			resultChans[i] <- writeResult{
+				n:   0,
+				err: w.writeErr,
+			}
+		}
+		return
+	}
 	// Flush everything we have so far.
 	if w.timeout > 0 {
 		err := w.c.SetWriteDeadline(time.Now().Add(w.timeout))
@@ -997,6 +1025,9 @@ func (w *writeCoalescer) flush(resultChans []chan<- writeResult, buffers net.Buf
 	buffers2 := make(net.Buffers, len(buffers))
 	copy(buffers2, buffers)
 	n, err := buffers2.WriteTo(w.c)
+	if err != nil {
+		w.writeErr = err
+	}
 	// Writes of bytes before n succeeded, writes of bytes starting from n failed with err.
 	// Use n as remaining byte counter.
 	for i := range buffers {
